@@ -34,6 +34,8 @@ Fixpoint split_on (sep : N) (s : str) (cur : str) : list str :=
 Definition split_sep (sep : N) (s : str) : list str := split_on sep s [].
 Definition last_part (sep : N) (s : str) : str := last (split_sep sep s) [].
 
+Definition is_some {A} (o : option A) : bool := match o with Some _ => true | None => false end.
+
 Fixpoint mapM {A B} (f : A -> option B) (l : list A) : option (list B) :=
   match l with
   | [] => Some []
